@@ -1,24 +1,24 @@
 (* C03 -- Consensus validity and integrity: decide once, only a leader-proposed value.
 
-   STAGE 1 (this file now): the single-process part, proved over ALL label sequences the model of
-   qbft.Run (Qbft/Model.v) accepts -- every interleaving of start, input, message receipts (any
-   content, any sender, any compare verdict), timeouts, and every choice Go's map iteration can make:
-   decide at most once; the qcommit handed to Decide contains COMMIT(round, value) from >= quorum
-   distinct sources; after the decision nothing but rate-limited DECIDED re-broadcasts (and one corner:
-   a cached PRE-PREPARE released by a late input); every PREPARE broadcast is for a non-zero value.
-   [run p init ls = Some s] reads "ls is a label sequence the model can produce"; the correspondence
-   check establishes that label sequences recorded from core/qbft.Run are of that kind.
-   Proofs: Qbft/ModelFacts.v, Qbft/Justified.v; monitor: Qbft/Monitor.v.
+   Proved here:
+   * single process, over ALL label sequences the model of qbft.Run (Qbft/Model.v) accepts -- every interleaving of start,
+     input, message receipts (any content, any sender, any compare verdict), timeouts, and every choice Go's map iteration can
+     make: decide at most once; the qcommit handed to Decide contains COMMIT(round, value) from >= quorum distinct sources;
+     after the decision nothing but rate-limited DECIDED re-broadcasts (and one corner: a cached PRE-PREPARE released by a
+     late input); every PREPARE broadcast is for a non-zero value.
+   * network level (Qbft/Net.v: all n >= 1, at most f Byzantine members, adversary delivering any message whose parts were
+     broadcast by honest members or carry Byzantine sources), executions in which Compare never fails (default configuration):
+     an honest member never decides the zero value [C03_decide_nonzero]; the decided value was proposed in a PRE-PREPARE for
+     the decision round whose source is the leader of that round [C03_decide_leader_proposed]; with no Byzantine members the
+     decided value is the input value some member was given [C03_validity_no_byz].
+   [run p init ls = Some s] reads "ls is a label sequence the model can produce"; the correspondence check establishes that
+   label sequences recorded from core/qbft.Run are of that kind, and that recorded cluster executions are executions of Net.v.
+   Proofs: Qbft/ModelFacts.v, Qbft/Justified.v, Qbft/Validity.v; monitor: Qbft/Monitor.v.
 
-   TODO-stage-2 (full intended statements, DESIGN.md section C03; need the network semantics Qbft/Net.v):
-     | Theorem decide_nonzero : in every Net trace with |Byz| <= faulty n, an honest Decide v has v <> 0.
-        (single-process it is false: a quorum of COMMIT(r, 0) senders makes qbft.Run decide 0; with at most f
-         Byzantine members a commit quorum contains an honest COMMIT, sent only after a quorum of PREPAREs containing
-         an honest PREPARE, which [C03_prepare_nonzero_partial] shows is non-zero.)
-     | Theorem decide_leader_proposed : some PRE-PREPARE(r', v) with src = leader r' is in sent u Byz.
-     | Theorem validity_no_byz : with Byz = [], v is the Input of some process. *)
+   | TODO-stage-2: the same network-level statements with CmpFail allowed (non-default chain_split_halt), see Properties/C02.v. *)
 From Coq Require Import List NArith Arith Bool Sorted.
-From Charon Require Import Common.Quorum Qbft.Model Qbft.Monitor Qbft.ModelFacts Qbft.Justified Qbft.Examples.
+From Charon Require Import Common.Quorum Qbft.Model Qbft.Monitor Qbft.ModelFacts Qbft.Justified Qbft.Examples
+  Qbft.Net Qbft.NetInv Qbft.Agreement Qbft.Validity.
 Import ListNotations.
 
 (* Every label sequence of the model passes the single-process C03 monitor. *)
@@ -66,3 +66,26 @@ Theorem C03_nonvacuous :
   accepted ex_reproposal_params ex_reproposal = true /\ map (fun d => snd (fst d)) (decs ex_reproposal) = [2].
 Proof. exact (conj ex_happy_accepted (conj ex_happy_decides (conj ex_reproposal_accepted ex_reproposal_decides))). Qed.
 Print Assumptions C03_nonvacuous.
+
+(* ---- network level (Qbft/Net.v), executions without compare failures ---- *)
+
+(* decide_nonzero *)
+Theorem C03_decide_nonzero : forall c nt tr, wf_cfg c -> nreach c nt tr -> trace_nofail tr ->
+  forall i v r, In (i, v, r) (trace_decides tr) -> v <> 0%N.
+Proof. exact decide_nonzero_default. Qed.
+Print Assumptions C03_decide_nonzero.
+
+(* decide_leader_proposed: some deliverable PRE-PREPARE(r, v) part (broadcast by an honest member, or with a Byzantine source)
+   has the leader of the decision round r as its source *)
+Theorem C03_decide_leader_proposed : forall c nt tr, wf_cfg c -> nreach c nt tr -> trace_nofail tr ->
+  forall i v r, In (i, v, r) (trace_decides tr) ->
+  exists ppm, deliv c (sent nt) ppm /\ ty ppm = PrePrepare /\ rnd ppm = r /\ val ppm = v /\ src ppm = c_leader c r.
+Proof. exact decide_leader_proposed. Qed.
+Print Assumptions C03_decide_leader_proposed.
+
+(* validity_no_byz: with no Byzantine members the decided value is non-zero and was given as input to some member *)
+Theorem C03_validity_no_byz : forall c nt tr, wf_cfg c -> (forall i, i < c_n c -> c_honest c i = true) ->
+  nreach c nt tr -> trace_nofail tr ->
+  forall i v r, In (i, v, r) (trace_decides tr) -> v <> 0%N /\ exists j outs, In (j, LInput v outs) tr.
+Proof. exact validity_no_byz. Qed.
+Print Assumptions C03_validity_no_byz.
